@@ -57,6 +57,29 @@ UtxosUpdate(s, rep, rescan) ==
 UtxosUpdateA(s, rep, rescan, a) ==
     AddAll(IF rescan THEN [s EXCEPT !.coins = {IF AcctOf(s, c.key) = a THEN [c EXCEPT !.spent = TRUE] ELSE c : c \in @}] ELSE s, rep, 1)
 
+\* ---- receiving whole transactions (transactions_update: what the service layer hands to the wallet).
+\* r = [t, conf, ins: Seq([t, n]), outs: Seq([n, v, key])] - outs lists the outputs paying keys of this wallet.
+\* The outputs it spends are spent (whoever made the transaction), its outputs to own keys are coins with its
+\* confirmations; a transaction the wallet already stores (its own, now mined) only has its confirmations refreshed.
+ApplyTx(s, r) ==
+    LET inset == {<<r.ins[i].t, r.ins[i].n>> : i \in 1..Len(r.ins)}
+        s1 == [s EXCEPT !.txs = {y \in @ : y.t # r.t} \cup {[t |-> r.t, ins |-> inset]}]
+        marked == {IF <<c.t, c.n>> \in inset THEN [c EXCEPT !.spent = TRUE] ELSE c : c \in s.coins}
+        Listed(c) == c.t = r.t /\ \E i \in 1..Len(r.outs) : r.outs[i].n = c.n
+        news == {[t |-> r.t, n |-> r.outs[i].n, v |-> r.outs[i].v, key |-> r.outs[i].key, conf |-> r.conf,
+                  spent |-> SpentInDb(s1, r.t, r.outs[i].n) \/ \E c \in marked : c.t = r.t /\ c.n = r.outs[i].n /\ c.spent]
+                 : i \in 1..Len(r.outs)}
+        kept == {[c EXCEPT !.conf = IF c.t = r.t THEN r.conf ELSE @] : c \in {d \in marked : ~Listed(d)}}
+    IN [s1 EXCEPT !.coins = kept \cup news]
+RECURSIVE TxsUpdateFrom(_, _, _)
+TxsUpdateFrom(s, rep, i) == IF i > Len(rep) THEN s ELSE TxsUpdateFrom(ApplyTx(s, rep[i]), rep, i + 1)
+TxsUpdate(s, rep) == TxsUpdateFrom(s, rep, 1)
+\* a successful update also refreshes the confirmations of every transaction already known as confirmed
+\* (confs: sequence of [t, conf], the chain as it is now)
+Refresh(s, confs) ==
+    [s EXCEPT !.coins = {IF c.conf > 0 /\ \E i \in 1..Len(confs) : confs[i].t = c.t
+                         THEN [c EXCEPT !.conf = confs[CHOOSE i \in 1..Len(confs) : confs[i].t = c.t].conf] ELSE c : c \in @}]
+
 \* ---- creating a transaction.  q: the request, x: the transaction returned
 \* q = [recips: Seq([id, v]), fee (explicit, or -1), minconf, inkeys (set of key ids, {} = any), sweep: BOOLEAN,
 \*      feemin, feemax, nexplicit, explicit (set of <<t, n>>), above, acct]
